@@ -138,6 +138,17 @@ impl Set {
                 cases.push(Case::Str(t.replace("{}", i), "integer-extremes"));
             }
         }
+        // long multi-byte text where the parser's hand-written post-checks produce messages
+        for pad_char in ['\u{e9}', '\u{65e5}', '\u{1f600}', 'x'] {
+            for n in [1usize, 7, 15, 16, 17, 23, 24, 25, 31, 40, 47, 48, 49, 63, 64, 65, 100, 255, 256, 257] {
+                for shift in ["", "a", "ab", "abc"] {
+                    let pad: String = std::iter::repeat(pad_char).take(n).collect();
+                    for t in ["$. {S}{P}", "$.. {S}{P}", "$[?@. {S}{P} == 1]", "$[?length (@.{S}{P}) == 1]", "$[?length(@.{S}{P})]", "$[?match(@.{S}{P}, 'a') == true]", "$.{S}{P} ", "$[?count(@.{S}{P}, 1) == 1]", "$['{S}{P}'", "$[?@.{S}{P} == 01]", "$[?value(1, @.{S}{P}) == 1]"] {
+                        cases.push(Case::Str(t.replace("{S}", shift).replace("{P}", &pad), "long-multibyte-near-miss"));
+                    }
+                }
+            }
+        }
         // programmatic queries with extreme integers inside the I-JSON range (and the i64 limits,
         // which are outside the property's quantifier and only explored)
         use oracle::ast::*;
